@@ -156,6 +156,7 @@ def jRow (r : Row) : Json :=
 def jRaised : Option Raised → Json
   | none => Json.null
   | some .env => jS "env"
+  | some .envFin => jS "env"
   | some (.noMetrics t) => jS s!"no-metrics:{t}"
   | some .assertion => jS "assertion"
   | some .keyError => jS "key-error"
